@@ -120,4 +120,8 @@ theorem ranks_dispatch {ι φ : Type} (il : LK.IL.IL ι φ) (code : List Nat →
   · intro r hr ho
     simp [LK.IL.ranksOf, ranksDispatch, hr, ho]
 
+/-- a selector that is neither a scalar nor a slice is read as an array of whatever it holds — Booleans stay a mask, integers stay
+    positions; no type is forced on it -/
+theorem selector_read_as_given : selectorConversionOptions = 0 := by decide
+
 end LK.Gen.GuardsC16
